@@ -124,6 +124,7 @@ type pathState struct {
 	simpMemo   map[*Term]*Term
 	pcSet      map[*Term]bool
 	reprLens   int
+	ghostVer   map[string]int
 
 	initAppsLoaded bool
 }
